@@ -17,6 +17,7 @@ package compression
 //     panics and nothing poisons a later valid decode.
 
 import (
+	"bufio"
 	"bytes"
 	"compress/flate"
 	"compress/gzip"
@@ -165,12 +166,68 @@ func c20IndepDecode(name string, stream []byte) (out []byte, err error) {
 }
 
 type c20Variant struct {
-	Kind string // "flip" (bit index) | "cut" (prefix length)
+	Kind string // "flip" (bit index) | "cut" (prefix length) | "foreign" (index into c20ForeignFormats)
 	Pos  int
 }
 
-func (v c20Variant) apply(s []byte) []byte {
+// Well-formed messages of the NEIGHBOURING formats: what a peer sends that
+// implements the content-coding name differently (bare RFC 1951 for "deflate",
+// the snappy block format for "snappy", ...) or that mixes the names up. For the
+// decompressor of encoding E every format except E's own is a malformed input
+// in the sense of the property: whatever the instance makes of it (an error, or
+// tolerating it), a later valid message of E must decode exactly.
+var c20ForeignFormats = []string{"raw-deflate", "raw-deflate-stored", "zlib", "gzip", "zstd", "snappy-block", "snappy-framed", "br", "plain", "gzip-two-members", "zlib+trailing-garbage"}
+
+// c20OwnFormat: the entry of c20ForeignFormats that IS the encoding's format.
+var c20OwnFormat = map[string]string{"identity": "plain", "gzip": "gzip", "deflate": "zlib", "br": "br", "zstd": "zstd", "snappy": "snappy-framed"}
+
+func c20ForeignEncode(format string, data []byte) []byte {
+	var buf bytes.Buffer
+	must := func(err error) {
+		if err != nil {
+			panic(fmt.Sprintf("c20: foreign encoder %s: %v", format, err))
+		}
+	}
+	lib := func(name string) []byte {
+		out, err := c20IndepEncode(name, data)
+		must(err)
+		return out
+	}
+	switch format {
+	case "raw-deflate", "raw-deflate-stored": // RFC 1951 without any wrapper
+		level := flate.DefaultCompression
+		if format == "raw-deflate-stored" {
+			level = flate.NoCompression
+		}
+		w, err := flate.NewWriter(&buf, level)
+		must(err)
+		_, err = w.Write(data)
+		must(err)
+		must(w.Close())
+		return buf.Bytes()
+	case "zlib":
+		return lib("deflate")
+	case "gzip", "zstd", "br":
+		return lib(format)
+	case "snappy-framed":
+		return lib("snappy")
+	case "snappy-block":
+		return snappy.Encode(nil, data)
+	case "plain":
+		return append([]byte{}, data...)
+	case "gzip-two-members":
+		one := lib("gzip")
+		return append(append([]byte{}, one...), one...)
+	case "zlib+trailing-garbage":
+		return append(lib("deflate"), 0xde, 0xad, 0xbe, 0xef)
+	}
+	panic("c20: unknown foreign format " + format)
+}
+
+func (v c20Variant) apply(s, data []byte) []byte {
 	switch v.Kind {
+	case "foreign":
+		return c20ForeignEncode(c20ForeignFormats[v.Pos], data)
 	case "flip":
 		out := append([]byte{}, s...)
 		out[v.Pos/8] ^= 1 << (uint(v.Pos) % 8)
@@ -183,8 +240,15 @@ func (v c20Variant) apply(s []byte) []byte {
 
 // c20Variants: for the short inputs every single-bit flip and every proper
 // prefix of the valid stream; for the longer ones a fixed set of both.
-func c20Variants(s []byte, short bool) []c20Variant {
+func c20Variants(encName string, s []byte, short bool) []c20Variant {
 	var out []c20Variant
+	for i, f := range c20ForeignFormats {
+		// for gzip a sequence of members is a valid message, and the identity encoding has no malformed input at all:
+		// these stay in as "C" operations (no expectation on what they return), only the own format is skipped
+		if f != c20OwnFormat[encName] {
+			out = append(out, c20Variant{"foreign", i})
+		}
+	}
 	n := len(s)
 	if short {
 		for c := 0; c < n; c++ {
@@ -305,6 +369,14 @@ var c20DKinds = []string{"V", "C", "N", "X", "R", "P"}
 
 var c20DKindName = map[string]string{"": "fresh", "V": "valid", "C": "corrupt", "N": "nobody", "X": "close", "R": "read", "P": "poolput"}
 
+// c20DOpName names an operation in violation keys.
+func c20DOpName(op c20DOp) string {
+	if op.K == "C" && op.Kind == "foreign" {
+		return "foreign-format"
+	}
+	return c20DKindName[op.K]
+}
+
 type c20DOp struct {
 	K    string `json:"k"`
 	Kind string `json:"kind,omitempty"` // C only
@@ -350,7 +422,7 @@ func (rn *c20DRunner) run(enc c20Enc, in c20Input, valid []byte, rk string, hist
 		return nil, []c20Verdict{{Key: "panic:" + enc.Name, Detail: "GetDecompressor: " + p}}, nil
 	}
 	anyReset := false
-	last := ""
+	last := "fresh"
 	decode := func(src io.Reader, read bool) (st c20DStep) {
 		rn.out.Reset()
 		st.Panic = c20Guard(func() {
@@ -389,8 +461,8 @@ func (rn *c20DRunner) run(enc c20Enc, in c20Input, valid []byte, rk string, hist
 			if st.Panic != "" {
 				verdicts = append(verdicts, c20Verdict{Key: "panic:" + enc.Name, Step: i, Detail: fmt.Sprintf("decode of a VALID stream panicked at step %d: %s", i, st.Panic)})
 			} else if st.ResetErr != "" || st.ReadErr != "" || !st.Same {
-				key := "reuse-after-" + c20DKindName[last] + ":" + enc.Name
-				if last == "" {
+				key := "reuse-after-" + last + ":" + enc.Name
+				if last == "fresh" {
 					key = "roundtrip:" + enc.Name
 				}
 				verdicts = append(verdicts, c20Verdict{Key: key, Step: i, Reuse: true, Detail: fmt.Sprintf(
@@ -400,7 +472,7 @@ func (rn *c20DRunner) run(enc c20Enc, in c20Input, valid []byte, rk string, hist
 		case "C":
 			st = decode(c20Reader(rk, op.s), true)
 			if st.Panic != "" {
-				verdicts = append(verdicts, c20Verdict{Key: "panic:" + enc.Name, Step: i, Detail: fmt.Sprintf("decode of a corrupted stream (%s %d) panicked at step %d: %s", op.Kind, op.Pos, i, st.Panic)})
+				verdicts = append(verdicts, c20Verdict{Key: "panic:" + enc.Name, Step: i, Detail: fmt.Sprintf("decode of the malformed stream %s panicked at step %d: %s", c20HistString([]c20DOp{op}), i, st.Panic)})
 			}
 			if wantSteps || i == 0 {
 				cl := "ok-different"
@@ -414,7 +486,12 @@ func (rn *c20DRunner) run(enc c20Enc, in c20Input, valid []byte, rk string, hist
 				case st.Same:
 					cl = "ok-same-bytes"
 				}
-				classes = append(classes, "corrupt-decode:"+enc.Name+":"+cl)
+				if op.Kind == "foreign" {
+					// what the decompressor makes of each neighbouring format (tolerating one is not a violation by itself)
+					classes = append(classes, "foreign-decode:"+enc.Name+"<-"+c20ForeignFormats[op.Pos]+":"+cl)
+				} else {
+					classes = append(classes, "corrupt-decode:"+enc.Name+":"+cl)
+				}
 			}
 		case "N":
 			st = decode(http.NoBody, false)
@@ -460,7 +537,7 @@ func (rn *c20DRunner) run(enc c20Enc, in c20Input, valid []byte, rk string, hist
 		default:
 			panic("bad op " + op.K)
 		}
-		last = op.K
+		last = c20DOpName(op)
 		if wantSteps {
 			st.Op = c20HistString([]c20DOp{op})
 			if i == len(hist) {
@@ -479,6 +556,9 @@ func c20HistString(h []c20DOp) string {
 		parts[i] = op.K
 		if op.K == "C" {
 			parts[i] = fmt.Sprintf("C(%s@%d)", op.Kind, op.Pos)
+			if op.Kind == "foreign" {
+				parts[i] = "C(well-formed " + c20ForeignFormats[op.Pos] + ")"
+			}
 		}
 	}
 	return strings.Join(parts, " ")
@@ -614,19 +694,30 @@ func (rn *c20DRunner) minimize(enc c20Enc, in c20Input, valid []byte, rk string,
 	}
 	names := make([]string, len(hist))
 	for i, op := range hist {
-		names[i] = c20DKindName[op.K]
+		names[i] = c20DOpName(op)
 	}
 	return hist, "reuse-after-" + strings.Join(names, "+") + ":" + enc.Name
 }
 
-func c20MinimizeC(enc c20Enc, in c20Input, prefix []string) (hist []string, key string) {
+func c20FirstDiff(a, b []byte) int {
+	for i := 0; i < len(a) && i < len(b); i++ {
+		if a[i] != b[i] {
+			return i
+		}
+	}
+	return min(len(a), len(b))
+}
+
+func c20Around(b []byte, at int) []byte { return b[min(at, len(b)):min(at+12, len(b))] }
+
+func c20MinimizeC(enc c20Enc, in c20Input, feed string, prefix []string) (hist []string, key string) {
 	hist = prefix
 	c20Subseqs(len(prefix), func(idx []int) bool {
 		sub := make([]string, len(idx))
 		for i, j := range idx {
 			sub[i] = prefix[j]
 		}
-		_, verdicts, _ := c20RunComp(enc, in, sub, false)
+		_, verdicts, _ := c20RunComp(enc, in, feed, sub, false)
 		for _, v := range verdicts {
 			if v.Reuse {
 				hist = sub
@@ -635,14 +726,21 @@ func c20MinimizeC(enc c20Enc, in c20Input, prefix []string) (hist []string, key 
 		}
 		return false
 	})
+	// a failure that needs the caller to re-use its buffer gets its own key
+	how := ""
+	if feed != "whole" && feed != "" {
+		if _, verdicts, _ := c20RunComp(enc, in, "whole", hist, false); len(verdicts) == 0 {
+			how = "caller-reuses-buffer:"
+		}
+	}
 	if len(hist) == 0 {
-		return hist, "compress-roundtrip:" + enc.Name
+		return hist, "compress-roundtrip:" + how + enc.Name
 	}
 	names := make([]string, len(hist))
 	for i, op := range hist {
 		names[i] = c20CKindName[op]
 	}
-	return hist, "compress-after-" + strings.Join(names, "+") + ":" + enc.Name
+	return hist, "compress-after-" + strings.Join(names, "+") + ":" + how + enc.Name
 }
 
 func c20DecompSearch(t *testing.T, r *rep.Report, deadline time.Time, k *int64) {
@@ -662,10 +760,10 @@ func c20DecompSearch(t *testing.T, r *rep.Report, deadline time.Time, k *int64) 
 			if back, err := c20IndepDecode(enc.Name, valid); err != nil || !bytes.Equal(back, in.Data) {
 				t.Fatalf("independent codec %s does not round-trip %s: %v", enc.Name, in.Name, err)
 			}
-			vars := c20Variants(valid, in.Short)
+			vars := c20Variants(enc.Name, valid, in.Short)
 			streams := make([][]byte, len(vars))
 			for i, v := range vars {
-				streams[i] = v.apply(valid)
+				streams[i] = v.apply(valid, in.Data)
 			}
 			for _, rk := range readers {
 				// class representatives: first variant of each distinct fresh-instance behaviour
@@ -707,6 +805,11 @@ func c20DecompSearch(t *testing.T, r *rep.Report, deadline time.Time, k *int64) 
 						bucket = "shorter"
 					}
 					cl := vars[vi].Kind + "|" + c20Digits.ReplaceAllString(st.ResetErr, "#") + "|" + c20Digits.ReplaceAllString(st.ReadErr, "#") + "|" + bucket + "|" + fmt.Sprint(st.Panic != "")
+					if vars[vi].Kind == "foreign" {
+						// the neighbouring formats are classed by what happens, not by the text of the error
+						// (every one of them still occurs alone and on the diagonal of every history)
+						cl = fmt.Sprintf("foreign|%v|%v|%s|%v", st.ResetErr != "", st.ReadErr != "", bucket, st.Panic != "")
+					}
 					if !seen[cl] {
 						seen[cl] = true
 						reps = append(reps, vi)
@@ -799,6 +902,74 @@ var c20CKinds = []string{"B", "D", "F", "W", "X"}
 
 var c20CKindName = map[string]string{"": "fresh", "B": "reset", "D": "discard", "F": "failed-sink", "W": "write", "X": "close"}
 
+// How the caller hands the message to the compressor at a W operation. An
+// io.Writer must not retain the slice it is given and must have consumed it when
+// Write returns, so every caller is free to build the next piece in the same
+// memory - io.Copy (32 KiB transfer buffer), bufio.Writer, fmt.Fprintf and every
+// hand-written read/write loop do. The transfer buffer is overwritten with a
+// pattern after each Write returns (and once more before Close).
+//
+//	whole    one Write of the input slice itself (what connect-go and the raw-payload encoder do)
+//	reuse1/2/3  the message in 1/2/3 pieces, each copied into ONE transfer buffer and written from there
+//	iocopy   io.Copy(compressor, reader)  (32 KiB buffer, or the compressor's own ReadFrom if it has one)
+//	copybuf  io.CopyBuffer with a 16-byte transfer buffer through a plain io.Writer view of the compressor
+//	bufio    a bufio.Writer (16 bytes) in front of the compressor, fed in 5-byte pieces, then Flush
+var c20Feeds = []string{"whole", "reuse1", "reuse2", "reuse3", "iocopy", "copybuf", "bufio"}
+
+type c20WriterOnly struct{ w io.Writer }
+
+func (o c20WriterOnly) Write(p []byte) (int, error) { return o.w.Write(p) }
+
+func c20Scribble(b []byte) {
+	for i := range b {
+		b[i] = 0xA5 ^ byte(i*7)
+	}
+}
+
+// c20Feed writes data to w in the given way; n is the number of message bytes the writer accepted.
+func c20Feed(w io.Writer, data []byte, feed string) (n int, err error) {
+	switch feed {
+	case "", "whole":
+		return w.Write(data)
+	case "reuse1", "reuse2", "reuse3":
+		pieces := int(feed[len(feed)-1] - '0')
+		size := (len(data)+pieces-1)/pieces | 1 // odd, so that the pieces of a periodic input differ
+		transfer := make([]byte, size)
+		for p := 0; p < pieces; p++ {
+			lo, hi := min(p*size, len(data)), min((p+1)*size, len(data))
+			m, err := w.Write(transfer[:copy(transfer, data[lo:hi])])
+			c20Scribble(transfer)
+			n += m
+			if err != nil {
+				return n, err
+			}
+			if m != hi-lo {
+				return n, io.ErrShortWrite
+			}
+		}
+		return n, nil
+	case "iocopy":
+		m, err := io.Copy(w, &c20Opaque{bytes.NewReader(data)})
+		return int(m), err
+	case "copybuf":
+		transfer := make([]byte, 16)
+		m, err := io.CopyBuffer(c20WriterOnly{w}, &c20Opaque{bytes.NewReader(data)}, transfer)
+		c20Scribble(transfer)
+		return int(m), err
+	case "bufio":
+		bw := bufio.NewWriterSize(c20WriterOnly{w}, 16)
+		for lo := 0; lo < len(data); lo += 5 {
+			m, err := bw.Write(data[lo:min(lo+5, len(data))])
+			n += m
+			if err != nil {
+				return n, err
+			}
+		}
+		return n, bw.Flush()
+	}
+	panic("c20: unknown feed " + feed)
+}
+
 type c20FailSink struct{}
 
 func (c20FailSink) Write(p []byte) (int, error) { return 0, errors.New("c20: sink failure") }
@@ -814,11 +985,12 @@ type c20CCase struct {
 	Side    string     `json:"side"` // "compressor"
 	Enc     string     `json:"enc"`
 	Input   string     `json:"input"`
+	Feed    string     `json:"feed,omitempty"` // how every W hands the message over (c20Feeds); "" = whole
 	History []string   `json:"history"`
 	Steps   []c20CStep `json:"observed,omitempty"`
 }
 
-func c20RunComp(enc c20Enc, in c20Input, hist []string, wantSteps bool) (steps []c20CStep, verdicts []c20Verdict, classes []string) {
+func c20RunComp(enc c20Enc, in c20Input, feed string, hist []string, wantSteps bool) (steps []c20CStep, verdicts []c20Verdict, classes []string) {
 	var c connect.Compressor
 	if p := c20Guard(func() {
 		var err error
@@ -875,7 +1047,7 @@ func c20RunComp(enc c20Enc, in c20Input, hist []string, wantSteps bool) (steps [
 		case "W":
 			var n int
 			var err error
-			st.Panic = c20Guard(func() { n, err = c.Write(in.Data) })
+			st.Panic = c20Guard(func() { n, err = c20Feed(c, in.Data, feed) })
 			st.Err = c20ErrStr(err)
 			switch {
 			case st.Panic != "" && anyReset:
@@ -884,7 +1056,7 @@ func c20RunComp(enc c20Enc, in c20Input, hist []string, wantSteps bool) (steps [
 			case st.Panic != "":
 				classes = append(classes, "compressor:write-before-first-reset-panics:"+enc.Name)
 			case sink != nil && (err != nil || n != len(in.Data)):
-				fail(fmt.Sprintf("Write of %d bytes to a freshly Reset compressor on a bytes.Buffer returned n=%d err=%v", len(in.Data), n, err))
+				fail(fmt.Sprintf("Write (feed=%s) of %d bytes to a freshly Reset compressor on a bytes.Buffer returned n=%d err=%v", feed, len(in.Data), n, err))
 				sink = nil
 			case sink != nil:
 				segWrites++
@@ -910,8 +1082,11 @@ func c20RunComp(enc c20Enc, in c20Input, hist []string, wantSteps bool) (steps [
 							extra = " (the stream IS valid raw RFC 1951 flate: wrong algorithm for the name)"
 						}
 					}
-					fail(fmt.Sprintf("%d emitted bytes (%d writes of input %q) decoded by an independent %s decoder: err=%v, %d bytes, identical=%v; want the %d original bytes%s",
-						sink.Len(), segWrites, in.Name, enc.Name, derr, len(got), bytes.Equal(got, want), len(want), extra))
+					if derr == nil && feed != "whole" && feed != "" {
+						extra += fmt.Sprintf(" (feed=%s: the caller re-used its transfer buffer after Write returned; first difference at offset %d, got %q want %q)", feed, c20FirstDiff(got, want), c20Around(got, c20FirstDiff(got, want)), c20Around(want, c20FirstDiff(got, want)))
+					}
+					fail(fmt.Sprintf("%d emitted bytes (%d messages of input %q, feed=%s) decoded by an independent %s decoder: err=%v, %d bytes, identical=%v; want the %d original bytes%s",
+						sink.Len(), segWrites, in.Name, feed, enc.Name, derr, len(got), bytes.Equal(got, want), len(want), extra))
 				} else if inOracle {
 					classes = append(classes, "compressor:"+enc.Name+":ok")
 				}
@@ -940,37 +1115,46 @@ func c20CompSearch(t *testing.T, r *rep.Report, deadline time.Time, k *int64) {
 	}
 	for _, enc := range c20Encs() {
 		for _, in := range c20Inputs(true) {
-			for l := 0; l <= maxLen; l++ {
-				for _, seq := range c20Seqs(c20CKinds, l) {
-					*k++
-					if !r.Mine(*k) {
-						continue
-					}
-					if !deadline.IsZero() && time.Now().After(deadline) {
-						r.NotExhaustive(fmt.Sprintf("budget reached in compressor histories at enc=%s input=%s length=%d", enc.Name, in.Name, l))
-						return
-					}
-					_, verdicts, classes := c20RunComp(enc, in, seq, false)
-					r.Eval(1)
-					r.Count("compressor-histories", 1)
-					r.Count(fmt.Sprintf("compressor-histories-len%d", l), 1)
-					if l > 0 {
-						r.NonTrivial("")
-					}
-					for _, c := range classes {
-						r.Outcome(c)
-					}
-					if *k%4001 == 1 {
-						r.Sample(c20CCase{Side: "compressor", Enc: enc.Name, Input: in.Name, History: seq})
-					}
-					for _, v := range verdicts {
-						hh, key := seq, v.Key
-						if v.Reuse {
-							hh, key = c20MinimizeC(enc, in, seq)
+			for _, feed := range c20Feeds {
+				if in.NoWrite && feed != "whole" {
+					continue // no W in the oracle: the feed only matters inside the history, covered by input "empty"
+				}
+				if len(in.Data) > 4096 && !rep.Thorough() && (feed == "reuse1" || feed == "reuse3" || feed == "copybuf" || feed == "bufio") {
+					continue // quick tier: the 64 KB input is handed over whole, in 2 pieces from one buffer and by io.Copy (3 fills of its 32 KiB buffer)
+				}
+				for l := 0; l <= maxLen; l++ {
+					for _, seq := range c20Seqs(c20CKinds, l) {
+						*k++
+						if !r.Mine(*k) {
+							continue
 						}
-						r.Outcome("compressor:" + key)
-						r.Violate(key, fmt.Sprintf("enc=%s input=%s compressor history=[%s] (shortest failing sub-history: [%s]): %s", enc.Name, in.Name, strings.Join(seq, " "), strings.Join(hh, " "), v.Detail),
-							c20CCase{Side: "compressor", Enc: enc.Name, Input: in.Name, History: hh})
+						if !deadline.IsZero() && time.Now().After(deadline) {
+							r.NotExhaustive(fmt.Sprintf("budget reached in compressor histories at enc=%s input=%s feed=%s length=%d", enc.Name, in.Name, feed, l))
+							return
+						}
+						_, verdicts, classes := c20RunComp(enc, in, feed, seq, false)
+						r.Eval(1)
+						r.Count("compressor-histories", 1)
+						r.Count("compressor-histories-feed-"+feed, 1)
+						r.Count(fmt.Sprintf("compressor-histories-len%d", l), 1)
+						if l > 0 {
+							r.NonTrivial("")
+						}
+						for _, c := range classes {
+							r.Outcome(c)
+						}
+						if *k%4001 == 1 {
+							r.Sample(c20CCase{Side: "compressor", Enc: enc.Name, Input: in.Name, Feed: feed, History: seq})
+						}
+						for _, v := range verdicts {
+							hh, key := seq, v.Key
+							if v.Reuse {
+								hh, key = c20MinimizeC(enc, in, feed, seq)
+							}
+							r.Outcome("compressor:" + key)
+							r.Violate(key, fmt.Sprintf("enc=%s input=%s feed=%s compressor history=[%s] (shortest failing sub-history: [%s]): %s", enc.Name, in.Name, feed, strings.Join(seq, " "), strings.Join(hh, " "), v.Detail),
+								c20CCase{Side: "compressor", Enc: enc.Name, Input: in.Name, Feed: feed, History: hh})
+						}
 					}
 				}
 			}
@@ -1444,7 +1628,7 @@ func c20Replay(t *testing.T, r *rep.Report, data []byte) {
 		}
 		for i := range c.History {
 			if c.History[i].K == "C" {
-				c.History[i].s = c20Variant{c.History[i].Kind, c.History[i].Pos}.apply(valid)
+				c.History[i].s = c20Variant{c.History[i].Kind, c.History[i].Pos}.apply(valid, in.Data)
 			}
 		}
 		rn := &c20DRunner{scratch: make([]byte, 32*1024)}
@@ -1466,14 +1650,17 @@ func c20Replay(t *testing.T, r *rep.Report, data []byte) {
 			t.Fatalf("replay: %v", err)
 		}
 		enc, in := findEnc(c.Enc), findIn(c.Input, true)
-		steps, verdicts, _ := c20RunComp(enc, in, c.History, true)
+		steps, verdicts, _ := c20RunComp(enc, in, c.Feed, c.History, true)
 		c.Steps = steps
 		out, _ := json.MarshalIndent(c, "", " ")
 		fmt.Printf("C20 replay:\n%s\n", out)
 		r.Eval(1)
 		for _, v := range verdicts {
+			if v.Reuse {
+				_, v.Key = c20MinimizeC(enc, in, c.Feed, c.History) // the key the search reports
+			}
 			fmt.Printf("STILL FAILS: %s: %s\n", v.Key, v.Detail)
-			r.Violate(v.Key, fmt.Sprintf("enc=%s input=%s compressor history=[%s]: %s", c.Enc, c.Input, strings.Join(c.History, " "), v.Detail), c)
+			r.Violate(v.Key, fmt.Sprintf("enc=%s input=%s feed=%s compressor history=[%s]: %s", c.Enc, c.Input, c.Feed, strings.Join(c.History, " "), v.Detail), c)
 		}
 		if len(verdicts) == 0 {
 			fmt.Println("replay: no violation observed")
@@ -1515,9 +1702,12 @@ func TestVerifC20Hist(t *testing.T) {
 	r.Rule = "breadth-first over ALL operation histories (length <=3 quick, <=4 thorough) of one instance obtained once from GetCompressor/GetDecompressor, " +
 		"for 6 encodings x inputs {empty, 'a', 300x'ab', 256 distinct bytes, 64 KB LCG}; each history is replayed on a fresh instance and followed by the oracle operation. " +
 		"Decompressor operations: V Reset(valid)+read all, C Reset(corrupt)+read all, N Reset(http.NoBody), X Close, R Read, P Close+Reset(http.NoBody) (pool put); source handed to Reset both as *bytes.Buffer (as connect-go/tracer do) and as an opaque io.Reader. " +
-		"corrupt = every single-bit flip and every proper prefix of the valid stream for the two short inputs (fixed set of 14 cuts + 18 flips for the longer ones); histories with one C take every corruption; " +
-		"histories with several C take the diagonal (same corruption at every C) plus the full product of class representatives (one corruption per distinct fresh-instance behaviour); thorough additionally takes the full product of all corruptions for two C up to length 3 (source as *bytes.Buffer). " +
+		"corrupt = every single-bit flip and every proper prefix of the valid stream for the two short inputs (fixed set of 14 cuts + 18 flips for the longer ones), plus, for every input, the WELL-FORMED message of each neighbouring format " +
+		"(bare RFC 1951 deflate compressed and stored, zlib, gzip, zstd, snappy block, snappy framed, brotli, the plain bytes, two gzip members, zlib + 4 trailing bytes; the encoding's own format excluded): whatever the instance makes of it, the later valid message must decode exactly; histories with one C take every corruption; " +
+		"histories with several C take the diagonal (same corruption at every C) plus the full product of class representatives (one corruption per distinct fresh-instance behaviour; the neighbouring formats classed by reset error / read error / output size only); thorough additionally takes the full product of all corruptions for two C up to length 3 (source as *bytes.Buffer). " +
 		"Compressor operations: B Reset(new buffer), D Reset(io.Discard), F Reset(failing sink), W Write(data), X Close; every closed segment on a good sink and the final Reset+Write+Close are decoded by a fresh decoder of the underlying library. " +
+		"Every compressor history is run once per way the caller hands the message over at W (all W of the history and of the oracle alike): whole (one Write of the input slice), reuse1/2/3 (1/2/3 pieces, each copied into ONE transfer buffer that is overwritten after every Write returns), " +
+		"iocopy (io.Copy from an opaque reader), copybuf (io.CopyBuffer, 16-byte buffer, compressor seen as a plain io.Writer), bufio (16-byte bufio.Writer fed in 5-byte pieces + Flush) - quick tier: the 64 KB input only with whole, reuse2, iocopy; the oracle is the same: the independent decoder returns the message(s). " +
 		"Two instances: every history (same encoding: length <=3 quick / <=4 thorough; two different encodings: <=2 / <=3; compressors one shorter) over the operations of two decompressors {V, S Reset(valid) only, D read all, C, X, P} / two compressors {B, W, X, D} in every interleaving, second instance created at the start or at its first use, followed by the interleaved oracle 0S 1S 0D 1D / 0B 1B 0W 1W 0X 1X: each instance must return / emit its own input. " +
 		"A history counts as non-trivial when it contains at least one operation other than a valid decode (decompressor) / at least one operation (compressor); histories are distinct by construction."
 	if data := rep.ReplayInput(); data != nil {
@@ -1529,11 +1719,17 @@ func TestVerifC20Hist(t *testing.T) {
 	defer debug.SetMemoryLimit(debug.SetMemoryLimit(3 << 30))
 	deadline := rep.Deadline()
 	var k int64
+	t0 := time.Now()
 	c20CompSearch(t, r, deadline, &k)
-	kc := k
+	kc, t1 := k, time.Now()
 	c20PairSearch(t, r, deadline, &k)
-	kp := k
+	kp, t2 := k, time.Now()
 	c20DecompSearch(t, r, deadline, &k)
+	if r.Shard == 0 { // where the time goes (information only)
+		r.Extra["shard0_seconds_compressor_histories"] = t1.Sub(t0).Seconds()
+		r.Extra["shard0_seconds_two_instance_histories"] = t2.Sub(t1).Seconds()
+		r.Extra["shard0_seconds_decompressor_histories"] = time.Since(t2).Seconds()
+	}
 	if r.Exhaustive {
 		r.Extra["enumeration_size_compressor_histories"] = kc
 		r.Extra["enumeration_size_two_instance_histories"] = kp - kc
